@@ -484,8 +484,23 @@ def interleave(rec, provs, lazy, depth, first, tmp):
 
 # --------------------------------------------------------------- rejection clause
 def bad_contents(w):
+    """octet strings that are not a valid count: texts that are no decimal number or out of range, and CORRUPTIONS of valid counts
+    (one foreign octet or character inserted at every position of a valid decimal text: non-ASCII octets that are not UTF-8, a
+    two-octet character, NUL, sign, point) - a reader that skips what it cannot decode would make a count up"""
     mod = 1 << w
-    return ["", "\n", "abc\n", "-1\n", "1.5\n", "0x1\n", " 7\n", f"{mod}\n", f"{mod + 1}\n", f"{max(10 ** 30, mod * 10)}\n", "²\n", "+1\n", "1e3\n", "seven\n"]
+    texts = ["", "\n", "abc\n", "-1\n", "1.5\n", "0x1\n", " 7\n", f"{mod}\n", f"{mod + 1}\n", f"{max(10 ** 30, mod * 10)}\n", "\u00b2\n", "+1\n", "1e3\n", "seven\n"]
+    out = [t.encode("utf-8") for t in texts]
+    valid = sorted({"0", str(mod - 1), str(min(5, mod - 1)), str(min(12, mod - 1))})
+    for t in valid:
+        for p in range(len(t) + 1):
+            for ins in (b"\x80", b"\xb3", b"\xff", "\u00e9".encode("utf-8"), b"\x00", b"-", b"."):
+                out.append(t[:p].encode() + ins + t[p:].encode() + b"\n")
+    seen, res = set(), []
+    for c in out:
+        if c not in seen:
+            seen.add(c)
+            res.append(c)
+    return res
 
 
 OPS = ("next", "get_and_increment", "current")
@@ -514,21 +529,21 @@ def reject(rec, cls, w, tmp):
 
     for mode, w0 in _reject_modes(cls, w):
         tag = "" if mode == "ctor" else "/width-set-by-setter"
-        for content in bad_contents(w) if mode == "ctor" else [f"{mod}\n", f"{mod + 1}\n"]:
+        for content in bad_contents(w) if mode == "ctor" else [f"{mod}\n".encode(), f"{mod + 1}\n".encode()]:
             for op in OPS:
                 # warm = 0: a new instance finds the bad content; warm = 1, 2: an instance that already made that many good
                 # calls (a call through each entry point) finds the file changed under it - every read is checked, not only the first
                 for warm in (0, 1, 2):
-                    path.write_text(content if not warm else "0\n", encoding="utf-8")
+                    path.write_bytes(content if not warm else b"0\n")
                     inst = make(mode, w0)
-                    case = {"kind": "reject", "cls": cls, "w": w, "content": content, "op": op, "mode": mode, "warm": warm}
+                    case = {"kind": "reject", "cls": cls, "w": w, "content": content.decode("utf-8", "backslashreplace"), "content_hex": content.hex(), "op": op, "mode": mode, "warm": warm}
                     rec.case(True, ops=1 + warm)
                     wtag = tag + ("/on-a-used-instance" if warm else "")
                     try:
                         for i in range(warm):
                             call(inst, ("current", "get_and_increment")[(i + 1) % 2] if warm == 2 else op)
                         if warm:
-                            path.write_text(content, encoding="utf-8")
+                            path.write_bytes(content)
                     except Exception:
                         continue  # the good calls are judged by the counting clauses
                     try:
